@@ -45,7 +45,7 @@ RULE = ("P (pipeline scenarios): a 4-gene linear record and a 3-gene circular re
         "of which ra/rb/rab and rc/rac yield protoclusters with identical coordinates.  Each scenario runs "
         "detection -> protoclusters -> candidate clusters -> regions -> GenBank -> JSON in child processes with "
         "PYTHONHASHSEED 0..7 (thorough 0..15) and in-process under 4 (thorough 8) permutations of the iteration order "
-        "of every set built by `set(...)` in the anchored modules; the nine stage dumps (detection-json, protoclusters, "
+        "of every set built by `set(...)` in the anchored modules; the ten stage dumps (detection-json, reloaded-gene-functions (saved rule results loaded against a fresh record and annotated again), protoclusters, "
         "candidates, regions, unique-protoclusters, areas, domain-qualifiers, genbank, json) are compared byte-wise.  "
         "A (areas): records whose protoclusters are given directly - 2-3 protoclusters of different products with "
         "IDENTICAL coordinates (+ optionally one with other coordinates), linear and on a ring, in the middle, at the "
@@ -71,9 +71,9 @@ RULE = ("P (pipeline scenarios): a 4-gene linear record and a 3-gene circular re
         "distinct = distinct case.")
 EXHAUSTIVE = {"quick": True, "thorough": False}
 
-STAGES = ["detection-json", "protoclusters", "candidates", "regions", "unique-protoclusters", "areas",
+STAGES = ["detection-json", "reloaded-gene-functions", "protoclusters", "candidates", "regions", "unique-protoclusters", "areas",
           "domain-qualifiers", "genbank", "json"]
-FULL_TEXT_STAGES = ("detection-json", "protoclusters", "candidates", "regions", "unique-protoclusters", "areas",
+FULL_TEXT_STAGES = ("detection-json", "reloaded-gene-functions", "protoclusters", "candidates", "regions", "unique-protoclusters", "areas",
                     "domain-qualifiers")
 
 RULES_TEXT = """
@@ -189,21 +189,27 @@ def _modules() -> dict[str, Any]:
     return _CACHE
 
 
+def _scenario_record(scn: dict[str, Any]) -> Any:
+    mod = _modules()
+    rec = mod["Record"](mod["Seq"]("A" * scn["len"]))
+    rec.id = "rec1"
+    rec.name = "rec1"
+    if scn["circular"]:
+        rec.annotations["topology"] = "circular"
+    for name, start, end, strand in scn["genes"]:
+        rec.add_cds_feature(mod["CDSFeature"](mod["FeatureLocation"](start, end, strand), locus_tag=name,
+                                              translation="M" * ((end - start) // 3)))
+    decorate_genes(rec, scn["genes"])
+    return rec
+
+
 def run_pipeline(scn: dict[str, Any]) -> dict[str, str]:
     """ -> {stage: text}; an exception of the code under test becomes the text of every later stage """
     mod = _modules()
     out: dict[str, str] = {}
     stage = "setup"
     try:
-        rec = mod["Record"](mod["Seq"]("A" * scn["len"]))
-        rec.id = "rec1"
-        rec.name = "rec1"
-        if scn["circular"]:
-            rec.annotations["topology"] = "circular"
-        for name, start, end, strand in scn["genes"]:
-            rec.add_cds_feature(mod["CDSFeature"](mod["FeatureLocation"](start, end, strand), locus_tag=name,
-                                                  translation="M" * ((end - start) // 3)))
-        decorate_genes(rec, scn["genes"])
+        rec = _scenario_record(scn)
         profiles = ["a", "b", "c", "d"]
         rules = mod["rule_parser"].Parser(RULES_TEXT, set(profiles), {"Cat"}).rules
         sigs = {p: mod["HmmSignature"](p, "profile " + p, 10, "nofile") for p in profiles}
@@ -236,6 +242,16 @@ def run_pipeline(scn: dict[str, Any]) -> dict[str, str]:
             detection._RULESETS.clear()  # pylint: disable=protected-access
         results = wrapped.rule_results
         out["detection-json"] = json.dumps(wrapped.to_json())
+        # the reuse path: the saved rule results are loaded against a fresh copy of the record and annotate its genes
+        # again (main with --reuse-results); the gene functions they produce must not depend on the process either
+        stage = "reloaded-gene-functions"
+        again = _scenario_record(scn)
+        reloaded = cp.RuleDetectionResults.from_json(json.loads(json.dumps(results.to_json())), again)
+        if reloaded is None:
+            raise ValueError("saved rule results refused on reload")
+        reloaded.annotate_cds_features()
+        out["reloaded-gene-functions"] = json.dumps([[cds.get_name(), [str(function) for function in cds.gene_functions]]
+                                                     for cds in again.get_cds_features()])
         stage = "protoclusters"
         for proto in results.protoclusters:
             rec.add_protocluster(proto)
